@@ -18,11 +18,23 @@ pub struct SccSc {
     pub edges: Vec<(usize, usize, u64)>,
     /// one container instance per entry: (hash seed, insertion order)
     pub instances: Vec<(u64, Vec<usize>)>,
+    /// edge changes made through node handles between successive scc() calls on the SAME
+    /// container instance
+    #[serde(default)]
+    pub phases: Vec<Vec<EdgeChange>>,
+}
+
+#[derive(Clone, Debug, Serialize, Deserialize, PartialEq)]
+pub enum EdgeChange {
+    Add(usize, usize, u64),
+    /// disconnect(u, key v)
+    Del(usize, usize),
+    Isolate(usize),
 }
 
 pub struct Scc;
 
-fn reference(n: usize, edges: &[(usize, usize, u64)]) -> BTreeSet<BTreeSet<usize>> {
+fn reference_closure(n: usize, edges: &[(usize, usize, u64)]) -> BTreeSet<BTreeSet<usize>> {
     let mut reach = vec![vec![false; n]; n];
     for (i, r) in reach.iter_mut().enumerate() {
         r[i] = true;
@@ -49,79 +61,201 @@ fn reference(n: usize, edges: &[(usize, usize, u64)]) -> BTreeSet<BTreeSet<usize
     out
 }
 
-fn run<F: Flavour>(sc: &SccSc, stats: &mut Stats) -> Option<Violation> {
-    let want = reference(sc.n, &sc.edges);
+/// iterative Tarjan (for graphs too large for the closure)
+fn reference_tarjan(n: usize, edges: &[(usize, usize, u64)]) -> BTreeSet<BTreeSet<usize>> {
+    let mut adj = vec![Vec::new(); n];
+    for (u, v, _) in edges {
+        adj[*u].push(*v);
+    }
+    let mut index = vec![usize::MAX; n];
+    let mut low = vec![0usize; n];
+    let mut on = vec![false; n];
+    let mut stack = Vec::new();
+    let mut next = 0;
+    let mut out = BTreeSet::new();
+    for root in 0..n {
+        if index[root] != usize::MAX {
+            continue;
+        }
+        let mut call: Vec<(usize, usize)> = vec![(root, 0)];
+        index[root] = next;
+        low[root] = next;
+        next += 1;
+        stack.push(root);
+        on[root] = true;
+        while let Some((v, i)) = call.last().copied() {
+            if i < adj[v].len() {
+                call.last_mut().unwrap().1 += 1;
+                let w = adj[v][i];
+                if index[w] == usize::MAX {
+                    index[w] = next;
+                    low[w] = next;
+                    next += 1;
+                    stack.push(w);
+                    on[w] = true;
+                    call.push((w, 0));
+                } else if on[w] {
+                    low[v] = low[v].min(index[w]);
+                }
+            } else {
+                call.pop();
+                if let Some((p, _)) = call.last() {
+                    low[*p] = low[*p].min(low[v]);
+                }
+                if low[v] == index[v] {
+                    let mut c = BTreeSet::new();
+                    loop {
+                        let w = stack.pop().unwrap();
+                        on[w] = false;
+                        c.insert(w);
+                        if w == v {
+                            break;
+                        }
+                    }
+                    out.insert(c);
+                }
+            }
+        }
+    }
+    out
+}
+
+fn reference(n: usize, edges: &[(usize, usize, u64)]) -> BTreeSet<BTreeSet<usize>> {
+    let t = reference_tarjan(n, edges);
+    if n <= 12 {
+        // the two references check each other on every small graph
+        let c = reference_closure(n, edges);
+        if c != t {
+            eprintln!("HARNESS-ERROR: reference SCC implementations disagree on {edges:?}");
+            std::process::exit(2);
+        }
+    }
+    t
+}
+
+fn check_scc<F: Flavour>(g: &F::Graph, n: usize, edges: &[(usize, usize, u64)], phase: usize, stats: &mut Stats) -> Option<Violation> {
+    let want = reference(n, edges);
     if want.iter().any(|c| c.len() > 1) {
         stats.inc("graphs_with_nontrivial_component");
     }
-    let is_simple_cycle = |c: &BTreeSet<usize>| {
-        c.iter().all(|u| sc.edges.iter().filter(|(a, b, _)| a == u && c.contains(b) && a != b).count() == 1)
-    };
-    if want.iter().any(|c| c.len() > 2 && !is_simple_cycle(c)) {
-        stats.inc("probe_component_that_is_not_a_simple_cycle");
+    if n <= 64 {
+        let is_simple_cycle = |c: &BTreeSet<usize>| {
+            c.iter().all(|u| edges.iter().filter(|(a, b, _)| a == u && c.contains(b) && a != b).count() == 1)
+        };
+        if want.iter().any(|c| c.len() > 2 && !is_simple_cycle(c)) {
+            stats.inc("probe_component_that_is_not_a_simple_cycle");
+        }
     }
+    let iter_order: Vec<usize> = F::g_iter(g).iter().map(|(k, _)| *k).collect();
+    let show = |v: &dyn std::fmt::Debug| {
+        let s = format!("{v:?}");
+        if s.len() > 600 {
+            format!("{}… ({} chars)", &s[..600], s.len())
+        } else {
+            s
+        }
+    };
+    let fp = crate::rng::fnv(serde_json::to_string(&(edges, n, &iter_order)).unwrap().as_bytes());
+    stats.mark("graph_and_container_order", fp ^ crate::rng::fnv(F::NAME.as_bytes()));
+    stats.inc("scc_calls");
+    if n > 1024 {
+        stats.inc("probe_container_with_more_than_1024_members");
+    }
+    if phase > 0 {
+        stats.inc("scc_calls_repeated_on_same_container_after_edge_changes");
+    }
+    let got = match caught(|| F::g_scc(g).expect("directed flavour")) {
+        Caught::Ok(g) => g,
+        Caught::Panic(m) | Caught::Abort(m) => {
+            return Some(Violation::new("panic", format!("scc() did not return: {m} (container order {})", show(&iter_order))));
+        }
+    };
+    let listed: Vec<Vec<usize>> = got.iter().map(|c| c.iter().map(|n| F::key(n)).collect()).collect();
+    let mut seen = BTreeSet::new();
+    let mut dup = None;
+    for c in &listed {
+        for k in c {
+            if !seen.insert(*k) {
+                dup = Some(*k);
+            }
+        }
+    }
+    let ctx = format!("(call #{phase} on this container, {n} members, edges {}, container order {})", show(&edges), show(&iter_order));
+    if let Some(k) = dup {
+        return Some(Violation::new("not-a-partition", format!("node {k} appears twice in {} {ctx}", show(&listed))));
+    }
+    if seen.len() != n || listed.iter().any(|c| c.is_empty()) {
+        return Some(Violation::new(
+            "not-a-partition",
+            format!("components {} do not cover the {n} members exactly once {ctx}", show(&listed)),
+        ));
+    }
+    let got_set: BTreeSet<BTreeSet<usize>> = listed.iter().map(|c| c.iter().copied().collect()).collect();
+    if got_set != want {
+        let wrong: Vec<&BTreeSet<usize>> = got_set.difference(&want).take(3).collect();
+        return Some(Violation::new(
+            "wrong-components",
+            format!(
+                "scc() returned {} components, the graph has {}; e.g. returned {} which is not a strongly connected component {ctx}",
+                got_set.len(),
+                want.len(),
+                show(&wrong)
+            ),
+        ));
+    }
+    None
+}
+
+fn run<F: Flavour>(sc: &SccSc, stats: &mut Stats) -> Option<Violation> {
     let solo = Solo::new();
     if F::SYNC {
         solo.install();
     }
     let mut orders_seen = BTreeSet::new();
     let mut result = None;
-    for (hs, order) in &sc.instances {
+    'inst: for (hs, order) in &sc.instances {
         hashseam::set_seed(*hs);
         let nodes: Vec<F::Node> = (0..sc.n).map(|k| F::node_new(k, NVal::new(0, k as u64))).collect();
-        for (u, v, e) in &sc.edges {
+        let mut edges = sc.edges.clone();
+        for (u, v, e) in &edges {
             F::connect(&nodes[*u], &nodes[*v], EVal::new(*e));
         }
         let mut g = F::g_new();
         for k in order {
             F::g_insert(&mut g, nodes[*k].clone());
         }
-        let iter_order: Vec<usize> = F::g_iter(&g).iter().map(|(k, _)| *k).collect();
-        orders_seen.insert(iter_order.clone());
-        let fp = crate::rng::fnv(serde_json::to_string(&(&sc.flavour, &sc.edges, sc.n, &iter_order)).unwrap().as_bytes());
-        stats.mark("graph_and_container_order", fp);
-        stats.inc("scc_calls");
-        let got = match caught(|| F::g_scc(&g).expect("directed flavour")) {
-            Caught::Ok(g) => g,
-            Caught::Panic(m) | Caught::Abort(m) => {
-                result = Some(Violation::new("panic", format!("scc() did not return: {m} (container order {iter_order:?})")));
-                break;
-            }
-        };
-        let listed: Vec<Vec<usize>> = got.iter().map(|c| c.iter().map(|n| F::key(n)).collect()).collect();
-        let mut seen = BTreeSet::new();
-        let mut dup = None;
-        for c in &listed {
-            for k in c {
-                if !seen.insert(*k) {
-                    dup = Some(*k);
+        if sc.n <= 64 {
+            orders_seen.insert(F::g_iter(&g).iter().map(|(k, _)| *k).collect::<Vec<_>>());
+        }
+        if let Some(v) = check_scc::<F>(&g, sc.n, &edges, 0, stats) {
+            result = Some(v);
+            break;
+        }
+        // the same container again after edge changes made through the node handles
+        for (pi, phase) in sc.phases.iter().enumerate() {
+            for ch in phase {
+                match ch {
+                    EdgeChange::Add(u, v, e) => {
+                        F::connect(&nodes[*u], &nodes[*v], EVal::new(*e));
+                        edges.push((*u, *v, *e));
+                    }
+                    EdgeChange::Del(u, v) => {
+                        if let Ok(val) = F::disconnect(&nodes[*u], *v) {
+                            if let Some(p) = edges.iter().position(|x| x.2 == val.0) {
+                                edges.remove(p);
+                            }
+                        }
+                    }
+                    EdgeChange::Isolate(u) => {
+                        F::isolate(&nodes[*u]);
+                        edges.retain(|x| x.0 != *u && x.1 != *u);
+                    }
                 }
             }
-        }
-        if let Some(k) = dup {
-            result = Some(Violation::new(
-                "not-a-partition",
-                format!("node {k} appears twice in {listed:?} (edges {:?}, container order {iter_order:?})", sc.edges),
-            ));
-            break;
-        }
-        if seen.len() != sc.n || listed.iter().any(|c| c.is_empty()) {
-            result = Some(Violation::new(
-                "not-a-partition",
-                format!("components {listed:?} do not cover the {} members exactly once (edges {:?}, container order {iter_order:?})", sc.n, sc.edges),
-            ));
-            break;
-        }
-        let got_set: BTreeSet<BTreeSet<usize>> = listed.iter().map(|c| c.iter().copied().collect()).collect();
-        if got_set != want {
-            result = Some(Violation::new(
-                "wrong-components",
-                format!(
-                    "scc() = {listed:?}, strongly connected components are {want:?} (edges {:?}, container order {iter_order:?})",
-                    sc.edges
-                ),
-            ));
-            break;
+            if let Some(v) = check_scc::<F>(&g, sc.n, &edges, pi + 1, stats) {
+                result = Some(v);
+                break 'inst;
+            }
         }
     }
     if orders_seen.len() > 1 {
@@ -143,15 +277,42 @@ impl Engine for Scc {
     fn generate(&self, rng: &mut Rng, tier: Tier) -> SccSc {
         let flavour = if rng.coin() { "digraph" } else { "sync_digraph" }.to_string();
         let small = rng.chance(55, 100);
-        let n = if small { rng.range(1, 4) } else { rng.range(5, if tier == Tier::Quick { 16 } else { 30 }) };
+        // rarely a container far beyond the usual sizes (size-dependent code paths)
+        let huge = rng.chance(1, 15_000);
+        let n = if huge {
+            rng.range(700, 1800)
+        } else if small {
+            rng.range(1, 4)
+        } else {
+            rng.range(5, if tier == Tier::Quick { 16 } else { 30 })
+        };
         let mut edges = Vec::new();
         let mut next = 100u64;
-        let mut push = |edges: &mut Vec<(usize, usize, u64)>, u: usize, v: usize| {
-            next += 1;
-            edges.push((u, v, next));
+        let push = |edges: &mut Vec<(usize, usize, u64)>, u: usize, v: usize| {
+            let id = 100 + edges.len() as u64 + 1;
+            edges.push((u, v, id));
         };
         // swarm: shape of the graph varies per run
-        match rng.below(5) {
+        match if huge { *rng.pick(&[0usize, 3, 4, 5]) } else { rng.below(5) } {
+            5 => {
+                // many small gadgets a->b, a->c, c->b and short cycles
+                let mut i = 0;
+                while i + 3 <= n {
+                    if rng.coin() {
+                        push(&mut edges, i, i + 1);
+                        push(&mut edges, i, i + 2);
+                        push(&mut edges, i + 2, i + 1);
+                    } else {
+                        push(&mut edges, i, i + 1);
+                        push(&mut edges, i + 1, i + 2);
+                        push(&mut edges, i + 2, i);
+                    }
+                    if i + 3 < n && rng.chance(1, 3) {
+                        push(&mut edges, i + rng.below(3), i + 3);
+                    }
+                    i += 3;
+                }
+            }
             0 => {
                 // sparse random
                 let m = rng.below(n * 2 + 1);
@@ -227,7 +388,38 @@ impl Engine for Scc {
             }
         }
         rng.shuffle(&mut edges);
-        let ni = rng.range(2, 4);
+        next += edges.len() as u64 + 1;
+        let mut phases = Vec::new();
+        if !huge && rng.chance(1, 3) {
+            let mut cur = edges.clone();
+            for _ in 0..rng.range(1, 3) {
+                let mut ph = Vec::new();
+                for _ in 0..rng.range(1, 4) {
+                    match rng.below(10) {
+                        0..=3 => {
+                            next += 1;
+                            let (u, v) = (rng.below(n), rng.below(n));
+                            ph.push(EdgeChange::Add(u, v, next));
+                            cur.push((u, v, next));
+                        }
+                        4..=8 if !cur.is_empty() => {
+                            let (u, v, _) = cur[rng.below(cur.len())];
+                            ph.push(EdgeChange::Del(u, v));
+                            if let Some(p) = cur.iter().position(|x| x.0 == u && x.1 == v) {
+                                cur.remove(p);
+                            }
+                        }
+                        _ => {
+                            let u = rng.below(n);
+                            ph.push(EdgeChange::Isolate(u));
+                            cur.retain(|x| x.0 != u && x.1 != u);
+                        }
+                    }
+                }
+                phases.push(ph);
+            }
+        }
+        let ni = if huge { 1 } else { rng.range(2, 4) };
         let instances = (0..ni)
             .map(|_| {
                 let mut order: Vec<usize> = (0..n).collect();
@@ -240,6 +432,7 @@ impl Engine for Scc {
             n,
             edges,
             instances,
+            phases,
         }
     }
 
@@ -260,10 +453,29 @@ impl Engine for Scc {
         }
         for k in (0..sc.n).rev() {
             if sc.n > 1 {
-                if let Some(edges) = gen::remap_edges(&sc.edges, k) {
+                let remap = |x: usize| if x == k { None } else if x > k { Some(x - 1) } else { Some(x) };
+                let phases: Option<Vec<Vec<EdgeChange>>> = sc
+                    .phases
+                    .iter()
+                    .map(|ph| {
+                        ph.iter()
+                            .map(|c| {
+                                Some(match c {
+                                    EdgeChange::Add(u, v, e) => EdgeChange::Add(remap(*u)?, remap(*v)?, *e),
+                                    EdgeChange::Del(u, v) => EdgeChange::Del(remap(*u)?, remap(*v)?),
+                                    EdgeChange::Isolate(u) => EdgeChange::Isolate(remap(*u)?),
+                                })
+                            })
+                            .collect()
+                    })
+                    .collect();
+                // (not gen::remap_edges: node indices above 1000 are real nodes here)
+                let edges: Option<Vec<(usize, usize, u64)>> = sc.edges.iter().map(|(u, v, e)| Some((remap(*u)?, remap(*v)?, *e))).collect();
+                if let (Some(edges), Some(phases)) = (edges, phases) {
                     let mut c = sc.clone();
                     c.n -= 1;
                     c.edges = edges;
+                    c.phases = phases;
                     for (_, o) in c.instances.iter_mut() {
                         o.retain(|x| *x != k);
                         for x in o.iter_mut() {
@@ -276,6 +488,20 @@ impl Engine for Scc {
                 }
             }
         }
+        if !sc.phases.is_empty() {
+            let mut c = sc.clone();
+            c.phases.pop();
+            out.push(c);
+            for (i, ph) in sc.phases.iter().enumerate() {
+                for j in 0..ph.len() {
+                    if ph.len() > 1 {
+                        let mut c = sc.clone();
+                        c.phases[i].remove(j);
+                        out.push(c);
+                    }
+                }
+            }
+        }
         for e in gen::shrink_vec(&sc.edges, 120) {
             let mut c = sc.clone();
             c.edges = e;
@@ -285,6 +511,6 @@ impl Engine for Scc {
     }
 
     fn size(&self, sc: &SccSc) -> usize {
-        sc.edges.len() * 4 + sc.n * 2 + sc.instances.len()
+        sc.edges.len() * 4 + sc.n * 2 + sc.instances.len() + sc.phases.iter().map(|p| 3 + p.len() * 3).sum::<usize>()
     }
 }
